@@ -1,6 +1,6 @@
 (* C05 - when a connection dies every caller is released with an error (I/O-thread side).
    This file only pins statements. *)
-From Amq Require Import Lib.Base Gen.Consts Model.Wire Model.Frames Model.OutBuf Model.Collector Model.Slots Model.Core Spec.Slots Spec.Content Proofs.Slots Proofs.OutBuf Proofs.Collector Proofs.CoreContent Proofs.CoreInv Proofs.CoreMore Check.Core Proofs.Examples Model.Handle Proofs.Handle.
+From Amq Require Import Lib.Base Gen.Consts Model.Wire Model.Frames Model.OutBuf Model.Collector Model.Slots Model.Core Spec.Slots Spec.Content Proofs.Slots Proofs.OutBuf Proofs.Collector Proofs.CoreContent Proofs.CoreInv Proofs.CoreMore Check.Core Proofs.Examples Model.Handle Proofs.Handle Model.Sys Proofs.Sys.
 
 (* a read that ends in EOF / an I/O error / an unparsable frame after frames that were all processed: the event's outcome is the error that names it (unless the close handshake had completed) *)
 Theorem C05_fatal_read : forall (c : core) (fs : list dframe) (t : rterm) (c2 : core), process_all c fs = (OOk, c2) -> is_client_closed c2 = false -> fst (fst (handle_event c (EvStream None (Some (fs, t))))) = term_outcome t.
@@ -42,12 +42,33 @@ Proof. exact blocks_only_waiting. Qed.
 Theorem C05_verdict_reported : forall (c : hcall) (e : N) (rest : list hitem) (s : hstate), c <> CNowait \/ h_mail_rx s = false -> h_replies s = HErr e :: rest -> exists s' : hstate, hstep c s = Some (RErrItem e, s') /\ h_replies s' = rest.
 Proof. exact verdict_reported. Qed.
 
+(* THE WHOLE SYSTEM, EVERY SCHEDULE (Model/Sys.v: any number of callers with their programs, the I/O thread, the server, and the I/O thread ENDING AT ANY MOMENT - action ADie - for whatever reason, with whatever in flight): in every reachable state in which the I/O thread has ended, a blocked caller's receive returns at once (the reply that was already queued, or an error: it is no longer waiting afterwards), and a caller's next call returns an error at once without handing anything over - every call in flight and every later call returns, nobody hangs *)
+Theorem C05_system_dead_releases : forall (answer : N -> N -> N) (bound qcap : N) (progs : N -> list call), 1 <= qcap -> forall (sched : list act) (n : N), let s := yrun answer bound qcap (init_sys progs) sched in y_dead s = true -> yc_wait (y_ch (ystep answer bound qcap s (ARecv n)) n) = false /\ yc_wait (y_ch (ystep answer bound qcap s (ASend n)) n) = yc_wait (y_ch s n) /\ (yc_wait (y_ch s n) = false -> yc_failed (y_ch s n) = false -> yc_prog (y_ch s n) <> [] -> yc_failed (y_ch (ystep answer bound qcap s (ASend n)) n) = true /\ yc_mail (y_ch (ystep answer bound qcap s (ASend n)) n) = yc_mail (y_ch s n)).
+Proof. exact sys_dead_releases. Qed.
+
+(* ... and whenever it ends, what the calls returned before is still exactly the server's replies to that channel's own requests, in order; a caller is marked failed only after the I/O thread has ended *)
+Theorem C05_system_own_reply : forall (answer : N -> N -> N) (bound qcap : N) (progs : N -> list call), 1 <= qcap -> forall sched : list act, let s := yrun answer bound qcap (init_sys progs) sched in y_fail s = false /\ (forall n : N, let c := y_ch s n in yc_results c = map (answer n) (firstn (length (yc_results c)) (syncs (yc_issued c))) /\ (yc_wait c = false -> yc_failed c = false -> yc_results c = map (answer n) (syncs (yc_issued c))) /\ (yc_wait c = true -> exists r : N, syncs (yc_issued c) = firstn (length (yc_results c)) (syncs (yc_issued c)) ++ [r] /\ inflight answer s n = [answer n r]) /\ (yc_failed c = false -> (length (yc_replyq c) <= 1)%nat) /\ yc_issued c ++ yc_prog c = progs n /\ (yc_failed c = true -> y_dead s = true)).
+Proof. exact sys_own_reply. Qed.
+
 (* non-vacuity of C05_releases_*: in a reachable state with two channels and a consumer on
    each, every queue has a live sender; after the thread's state is dropped none has *)
 Example C05_example :
   forallb snd (ex_senders ex_two_channels) = true /\
   existsb snd (ex_senders (teardown ex_two_channels)) = false /\
   length (c_qs (teardown ex_two_channels)) = 6%nat.
+Proof. vm_compute. repeat split. Qed.
+
+(* non-vacuity of the system theorem: the I/O thread dies while caller 1 waits (its request is on
+   the wire, never answered) and caller 2's reply is already queued: 2 still gets its reply, 1 gets
+   an error, the next call of 2 fails at once *)
+Example C05_system_example :
+  let answer := fun n r => n * 1000 + r in
+  let progs := fun n => if n =? 1 then [(KSync, 7)] else if n =? 2 then [(KSync, 5); (KSync, 6)] else [] in
+  let s := yrun answer 16 2 (init_sys progs)
+             [ASend 1; ASend 2; ADrain 2 1; AWrite 1; ASrvRead; ASrvAnswer 2; ARead; ADrain 1 1; AWrite 1;
+              ADie; ARecv 1; ARecv 2; ASend 2] in
+  yc_results (y_ch s 1) = [] /\ yc_failed (y_ch s 1) = true /\ yc_wait (y_ch s 1) = false /\
+  yc_results (y_ch s 2) = [2005] /\ yc_failed (y_ch s 2) = true /\ yc_wait (y_ch s 2) = false.
 Proof. vm_compute. repeat split. Qed.
 
 Check C05_fatal_read : forall (c : core) (fs : list dframe) (t : rterm) (c2 : core), process_all c fs = (OOk, c2) -> is_client_closed c2 = false -> fst (fst (handle_event c (EvStream None (Some (fs, t))))) = term_outcome t.
@@ -60,6 +81,8 @@ Check C05_releases_ch0 : forall (c : core) (z : ch0slot), c_ch0 c = Some z -> tx
 Check C05_dead_thread_never_blocks : forall (c : hcall) (s : hstate), h_reply_tx s = false -> h_mail_rx s = false -> h_replies s = [] -> hstep c s = Some (RDropped, s).
 Check C05_blocks_only_waiting : forall (c : hcall) (s : hstate), hstep c s = None -> h_reply_tx s = true /\ h_replies s = [].
 Check C05_verdict_reported : forall (c : hcall) (e : N) (rest : list hitem) (s : hstate), c <> CNowait \/ h_mail_rx s = false -> h_replies s = HErr e :: rest -> exists s' : hstate, hstep c s = Some (RErrItem e, s') /\ h_replies s' = rest.
+Check C05_system_dead_releases : forall (answer : N -> N -> N) (bound qcap : N) (progs : N -> list call), 1 <= qcap -> forall (sched : list act) (n : N), let s := yrun answer bound qcap (init_sys progs) sched in y_dead s = true -> yc_wait (y_ch (ystep answer bound qcap s (ARecv n)) n) = false /\ yc_wait (y_ch (ystep answer bound qcap s (ASend n)) n) = yc_wait (y_ch s n) /\ (yc_wait (y_ch s n) = false -> yc_failed (y_ch s n) = false -> yc_prog (y_ch s n) <> [] -> yc_failed (y_ch (ystep answer bound qcap s (ASend n)) n) = true /\ yc_mail (y_ch (ystep answer bound qcap s (ASend n)) n) = yc_mail (y_ch s n)).
+Check C05_system_own_reply : forall (answer : N -> N -> N) (bound qcap : N) (progs : N -> list call), 1 <= qcap -> forall sched : list act, let s := yrun answer bound qcap (init_sys progs) sched in y_fail s = false /\ (forall n : N, let c := y_ch s n in yc_results c = map (answer n) (firstn (length (yc_results c)) (syncs (yc_issued c))) /\ (yc_wait c = false -> yc_failed c = false -> yc_results c = map (answer n) (syncs (yc_issued c))) /\ (yc_wait c = true -> exists r : N, syncs (yc_issued c) = firstn (length (yc_results c)) (syncs (yc_issued c)) ++ [r] /\ inflight answer s n = [answer n r]) /\ (yc_failed c = false -> (length (yc_replyq c) <= 1)%nat) /\ yc_issued c ++ yc_prog c = progs n /\ (yc_failed c = true -> y_dead s = true)).
 
 Print Assumptions C05_fatal_read.
 Print Assumptions C05_fatal_outcomes.
@@ -71,4 +94,7 @@ Print Assumptions C05_releases_ch0.
 Print Assumptions C05_dead_thread_never_blocks.
 Print Assumptions C05_blocks_only_waiting.
 Print Assumptions C05_verdict_reported.
+Print Assumptions C05_system_dead_releases.
+Print Assumptions C05_system_own_reply.
 Print Assumptions C05_example.
+Print Assumptions C05_system_example.
